@@ -32,7 +32,8 @@ type Sasl struct {
 
 type Row struct {
 	Tbl    string `json:"tbl"`
-	Norm   string `json:"norm"`
+	Norm   string `json:"norm"`  // from_normalize (and auth_normalize when Anorm is "=")
+	Anorm  string `json:"anorm"` // auth_normalize: "=" (as Norm) or a setting of its own (family I)
 	Auth   Item   `json:"auth"` // a = "U" | "V" | "none": the account whose password the client presents
 	Mf     Item   `json:"mf"`
 	From   From   `json:"from"`
@@ -62,6 +63,9 @@ var mailbox = map[string][2]string{
 	"sub":     {loc, "mail." + dom},
 	"suffix":  {loc, "evil" + dom},
 	"ivy":     {"ivy", dom},
+	// the case twin of self: local part in capitals, domain as it is.  Another address (and,
+	// as the name of account W, another account) wherever the operator's setting keeps the case.
+	"cself": {"ZO\u00cb", dom},
 	"ivyd":    {"\u0130vy", dom}, // capital I with dot above: not the same mailbox, but strings.ToLower makes it "ivy"
 	// a mailbox of U on a second domain, and the three addresses that differ from it by an
 	// IDNA deviation character (other domains under IDNA2008; the same after transitional mapping)
@@ -136,6 +140,8 @@ func User(it Item) string {
 		return Addr(Item{A: "self", V: it.V})
 	case "V":
 		return Addr(Item{A: "peer", V: it.V})
+	case "W": // the account whose name is the case twin of U's
+		return Addr(Item{A: "cself", V: it.V})
 	case "none":
 		return ""
 	}
@@ -217,6 +223,15 @@ func Header(r Row) string {
 
 func q(s string) string { return fmt.Sprintf("%q", s) }
 
+// NormSpec is the normalisation argument of CheckConfig for a row: "<from_normalize>" or
+// "<from_normalize>/<auth_normalize>" when the two directives are set independently.
+func (r Row) NormSpec() string {
+	if r.Anorm == "" || r.Anorm == "=" {
+		return r.Norm
+	}
+	return r.Norm + "/" + r.Anorm
+}
+
 // CheckConfig is the configuration block body of check.authorize_sender for
 // an entitlement table kind and a normalisation setting.
 func CheckConfig(tbl, norm string, chk bool, act string) string {
@@ -239,6 +254,11 @@ func checkConfig(tbl, norm string, chk bool, act string, ref string) string {
 		s = "user_to_email static {\n    entry " + q(self) + " " + q(dom) + " " + q(dom2) + "\n}\n"
 	case "star":
 		s = "user_to_email static {\n    entry " + q(self) + " \"*\"\n}\n"
+	case "twin": // case twins as distinct keys (U, W) and as distinct addresses (self of U, cself of V)
+		cself := Addr(Item{"cself", "plain"})
+		s = "user_to_email static {\n    entry " + q(self) + " " + q(self) + " " + q(alias) + "\n" +
+			"    entry " + q(cself) + " " + q(ivy) + "\n" +
+			"    entry " + q(peer) + " " + q(peer) + " " + q(cself) + "\n}\n"
 	case "absent":
 		s = "user_to_email static {\n    entry \"someone@else.example\" \"someone@else.example\"\n}\n"
 	case "prepare":
@@ -276,5 +296,9 @@ func checkConfig(tbl, norm string, chk bool, act string, ref string) string {
 	if !chk {
 		s += "check_header no\n"
 	}
-	return s + "auth_normalize " + norm + "\nfrom_normalize " + norm + "\n"
+	fnorm, anorm := norm, norm
+	if i := strings.IndexByte(norm, '/'); i >= 0 {
+		fnorm, anorm = norm[:i], norm[i+1:]
+	}
+	return s + "auth_normalize " + anorm + "\nfrom_normalize " + fnorm + "\n"
 }
